@@ -29,6 +29,7 @@ type Config struct {
 	SPE          uint64   `json:"spe"`
 	NVals        int      `json:"nvals"`
 	Balances     []uint64 `json:"balances"`
+	BalUnit      uint64   `json:"bal_unit,omitempty"`
 	Anchor       Ref      `json:"anchor"`
 	AnchorParent Label    `json:"anchor_parent"`
 	Epoch0       uint64   `json:"epoch0"` // justified = finalized = (anchor, epoch0)
@@ -223,7 +224,11 @@ func (g *genState) genAtt() {
 func (g *genState) randBals() []uint64 {
 	b := make([]uint64, g.cfg.NVals)
 	for i := range b {
-		b[i] = uint64(g.rng.Range(0, 4)) * 1000
+		unit := g.cfg.BalUnit
+		if unit == 0 {
+			unit = 1000 // replay files written before the unit existed
+		}
+		b[i] = uint64(g.rng.Range(0, 4)) * unit
 		if g.rng.Chance(1, 6) {
 			b[i] += uint64(g.rng.Intn(3))
 		}
@@ -393,9 +398,14 @@ func Generate(seed uint64, opt core.Options) (*Config, []Op) {
 	cfg := &Config{}
 	cfg.SPE = []uint64{2, 3, 4, 4, 8}[rng.Intn(5)]
 	cfg.NVals = rng.Range(1, 12)
+	if rng.Chance(1, 10) {
+		cfg.NVals = []int{40, 257, 300}[rng.Intn(3)] // indices beyond one byte
+	}
+	// balances in a unit of the run's choosing: small numbers, real stakes (32 ETH in gwei), 2^40
+	cfg.BalUnit = []uint64{1000, 1000, 1, 32_000_000_000, 1 << 40}[rng.Intn(5)]
 	cfg.Balances = make([]uint64, cfg.NVals)
 	for i := range cfg.Balances {
-		cfg.Balances[i] = uint64(rng.Range(0, 4)) * 1000
+		cfg.Balances[i] = uint64(rng.Range(0, 4)) * cfg.BalUnit
 	}
 	cfg.AuditEvery = rng.Chance(1, 2)
 	cfg.Nodes = 1
@@ -410,6 +420,9 @@ func Generate(seed uint64, opt core.Options) (*Config, []Op) {
 		cfg.AnchorParent = 1 // slot-node style anchor as in the repository's only test
 	case 1, 2:
 		cfg.Epoch0 = uint64(rng.Range(1, 3))
+		if rng.Chance(1, 4) {
+			cfg.Epoch0 = []uint64{257, 300, 70000}[rng.Intn(3)] // an old chain: epochs and slots beyond one and two bytes
+		}
 		cfg.Anchor.S = cfg.Epoch0 * cfg.SPE
 	}
 	g := &genState{rng: rng, cfg: cfg, next: 1}
